@@ -22,6 +22,8 @@ registry! {
     "C03" => c03,
     "C04" => c04,
     "C05" => c05,
+    "C08" => c08,
+    "C09" => c09,
     "C10" => c10,
     "C11" => c11,
     "C15" => c15,
